@@ -29,7 +29,7 @@ def gen_prog(rng, depth=0, names=None):
         names["n"] += 1
         return "s%d" % names["n"]
 
-    node = {"name": sname() if depth else "r", "via": rng.choice(["list", "list", "dict"]), "children": [], "attach": []}
+    node = {"name": sname() if depth else "r", "via": rng.choice(["list", "list", "dict"]), "children": [], "attach": [], "late": []}
     nkids = rng.randint(0, 3 if depth < 2 else 2)
     tickers = rng.sample(COLS + ["zz"], min(nkids, 5))
     for t in tickers:
@@ -42,6 +42,10 @@ def gen_prog(rng, depth=0, names=None):
             node["children"].append({"how": "nested", "strat": gen_prog(rng, depth + 1, names)})
     if depth < 2 and rng.random() < 0.35:
         node["attach"].append(gen_prog(rng, depth + 1, names))
+    if depth < 2 and rng.random() < 0.3:
+        # a strategy created while the tree is live (setup_from_parent): declares some tickers or none
+        node["late"].append({"name": sname(), "via": "list", "attach": [], "late": [],
+                             "children": [{"how": "string", "name": t} for t in rng.sample(COLS, rng.choice([0, 0, 1, 2]))]})
     if node["via"] == "dict":
         for c in node["children"]:
             if rng.random() < 0.5:
@@ -68,6 +72,9 @@ def flatten(node, decl=None, par=0, path=None):
     for a in node["attach"]:
         flatten(a, decl, me, path + ">" + a["name"])
         decl[-1 if False else [i for i, d in enumerate(decl) if d["path"] == path + ">" + a["name"]][0]]["how"] = "parent"
+    for a in node.get("late", []):
+        flatten(a, decl, me, path + ">" + a["name"])
+        [d for d in decl if d["path"] == path + ">" + a["name"]][0]["how"] = "late"
     return decl
 
 
@@ -109,7 +116,7 @@ class Comm:
 def run_case(case):
     prog, intpushes, commpushes, dup = case["prog"], case["intpushes"], case["commpushes"], case.get("dup")
     decl = flatten(prog)
-    tr = {"decl": decl, "cols": COLS, "intpushes": intpushes, "commpushes": commpushes, "expect_error": bool(dup), "raised": False, "obs": []}
+    tr = {"decl": decl, "cols": COLS, "intpushes": intpushes, "commpushes": commpushes, "expect_error": bool(dup), "raised": False, "obs": [], "npre_int": 0, "npre_comm": 0}
     try:
         if dup:
             p2 = json.loads(json.dumps(prog))
@@ -143,7 +150,26 @@ def run_case(case):
             nodes[decl[pu["node"] - 1]["path"]].use_integer_positions(pu["value"])
         for pu in commpushes[: len(commpushes) // 2]:
             nodes[decl[pu["node"] - 1]["path"]].set_commissions(Comm(pu["value"]))
+        tr["npre_int"], tr["npre_comm"] = half, len(commpushes) // 2
         root.setup(data)
+        root.update(dts[0])
+        # strategies created on the live tree
+        def late_of(node, path):
+            for a in node.get("late", []):
+                yield path, a
+            for c in node["children"]:
+                if c["how"] == "nested":
+                    nm = child_name(c)
+                    yield from late_of(dict(c["strat"], name=nm), path + ">" + nm)
+            for a in node["attach"]:
+                yield from late_of(a, path + ">" + a["name"])
+
+        for ppath, a in list(late_of(prog, prog["name"])):
+            index_nodes()
+            par = nodes[ppath]
+            kid = bt.Strategy(a["name"], children=[c["name"] for c in a["children"]] or None, parent=par)
+            kid.setup_from_parent()
+            kid.update(par.now)
         root.update(dts[0])
         # first use of every child declared by a string
         for d in decl:
@@ -181,11 +207,18 @@ def gen_case(rng, i):
     decl = flatten(prog)
     strat_idx = [k + 1 for k, d in enumerate(decl) if d["kind"] == "strat"]
     keep = [k + 1 for k, d in enumerate(decl) if not (d["kind"] == "sec" and d["how"] == "string" and d["name"] not in COLS)]
+    early_idx = [k for k in strat_idx if not any(decl[j]["how"] == "late" for j in range(len(decl)) if decl[k - 1]["path"] == decl[j]["path"] or decl[k - 1]["path"].startswith(decl[j]["path"] + ">"))]
     intp = [{"node": rng.choice([n for n in strat_idx]), "value": rng.random() < 0.5} for _ in range(rng.randint(0, 4))]
+
     if intp and rng.random() < 0.6:
         # the pattern 'a branch diverges, then the root re-asserts the value it already has'
         intp.append({"node": 1, "value": True})
+    for j in range(len(intp) // 2):  # the first half is pushed before the live-created strategies exist
+        if intp[j]["node"] not in early_idx:
+            intp[j]["node"] = rng.choice(early_idx)
     commp = [{"node": rng.choice(strat_idx), "value": rng.randint(1, 5)} for _ in range(rng.randint(0, 3))]
+    for j in range(len(commp) // 2):
+        commp[j]["node"] = rng.choice(early_idx)
     dup = rng.choice([None] * 8 + ["strings", "nodes", "strats"])
     return {"prog": prog, "intpushes": intp, "commpushes": commp, "dup": dup, "i": i}
 
@@ -232,6 +265,9 @@ def run(prop, tier, replay=None):
         counts[v["verdict"]] = counts.get(v["verdict"], 0) + 1
         if v["verdict"] == "FAIL":
             sig = tuple(sorted(set(c.split("[")[0] for c in v["clauses"])))
+            if sig == ("C19.commissions.K16",) and known_db.get("K16", {}).get("status") == "open":
+                rep.known["K16"] = rep.known.get("K16", 0) + 1
+                continue
             if sig in seen and len(rep.violations) >= 5:
                 continue
             seen.add(sig)
